@@ -100,6 +100,17 @@ def run_case(case):
 
     decoy(rng, twin)
     dut = event.Monitor(emap, **omit(rng, "event.Monitor", trigger=case["mon_trigger"]))
+    if first and len(first) > 1 and not permuted and rng.random() < 0.12:
+        # the monitor's event map is replaced (through the public setter of its `src`) by one with the same sources in
+        # another order, before the design is built: the numbering that counts is the one of the map it has then
+        order = list(first)
+        rng.shuffle(order)
+        emap = RenumberedMap() if rng.random() < 0.4 else event.EventMap()
+        for s in order:
+            emap.add(srcs[s])
+        dut.src.event_map = emap
+        first = sorted(order, key=lambda s_: emap.index(srcs[s_]))
+        mon.count("monitors_whose_event_map_was_replaced_before_elaboration")
     # bit k <-> source with index k
     by_bit = [srcs[s] for s in first]
     bit_trig = [trig[s] for s in first]
@@ -164,6 +175,17 @@ class PriorityMap(event.EventMap):
 
     def sources(self):
         yield from reversed(list(super().sources()))
+
+
+class RenumberedMap(event.EventMap):
+    """A project subclass that numbers its sources from the top (index() and sources() overridden consistently)."""
+
+    def index(self, src):
+        return self.size - 1 - super().index(src)
+
+    def sources(self):
+        for src, k in super().sources():
+            yield src, self.size - 1 - k
 
 
 class EqSource(event.Source):
